@@ -2,7 +2,8 @@
 """Regenerates MANIFEST.json from props.json (claimed properties) + the fixed list of property ids."""
 import json, os, subprocess
 ROOT = os.path.dirname(os.path.abspath(__file__))
-reg = json.load(open(os.path.join(ROOT, "props.json")))
+import glob
+reg = {os.path.basename(p)[:-5]: json.load(open(p)) for p in sorted(glob.glob(os.path.join(ROOT, "props.d", "C*.json")))}
 ids = [json.loads(l)["id"] for l in open(os.path.join(ROOT, "properties.jsonl"))]
 fixes = subprocess.run(["git", "-C", "/repo", "log", "--format=%h %s", "--grep=^fix:"], capture_output=True, text=True).stdout.strip().split("\n")
 checks, na = [], []
